@@ -94,23 +94,9 @@ def rule_typed(ctx):
     k = rl.get("pt-fromstr")
     if not k:
         raise AnchorError("impl FromStr for PackageType not found")
-    rows = models.rejections(facts, k)
-    ok = False
-    det = ""
-    for r in rows:
-        if r["kind"] == "tail" and r["callee"] == "std::option::Option::<T>::ok_or":
-            ct = r["callterm"]
-            inner, e = ct[2]
-            det = nshow(ct)[:200]
-            if models.error_const(e).startswith("UnsupportedPackageType"):
-                x = inner
-                if x[0] == "call" and x[1] == "std::option::Option::<&T>::copied":
-                    x = x[2][0]
-                if x[0] == "call" and x[1] == "phf::Map::<K, V>::get":
-                    probe = x[2][1]
-                    if probe[0] == "call" and probe[1] == "unicase::UniCase::<S>::new" and probe[2] == (("arg", 1),):
-                        ok = True
-    ctx.ob("TYPED", "PackageType::from_str = PACKAGE_TYPES.get(UniCase::new(s)).copied().ok_or(UnsupportedPackageType)", ok and len([r for r in rows if r["kind"] != "ok"]) == 1, fn=k, site=fn_site(facts, k), detail=det)
+    from . import C15
+    ok, err, det = C15.fromstr_shape(facts, k)
+    ctx.ob("TYPED", "PackageType::from_str = the table lookup of UniCase::new(s), Ok(found) or Err(UnsupportedPackageType)", ok and (err or "").startswith("UnsupportedPackageType"), fn=k, site=fn_site(facts, k), detail=det)
     # conversions
     for (src, want) in (("package_type::UnsupportedPackageType", "PackageError::UnsupportedType"), ("parse::ParseError", "PackageError::Parse(arg1)")):
         ks = [kk for kk, f in facts.fns.items() if f.get("impl_trait_def") == "std::convert::From" and f.get("impl_self") == "package_type::PackageError" and f.get("inputs") == [src]]
@@ -164,7 +150,15 @@ def rule_controls(ctx):
         controls.control_lossy(ctx)
 
 
+def rule_qm(ctx):
+    """'two non-empty values for one key in any letter case' are refused through Qualifiers::entry reporting Occupied: that
+    is only as good as the map's lookup, i.e. its representation invariant and comparator (C11)."""
+    from . import C11
+    C11.invariant_obligations(ctx, ctx.facts(), rule="QM-INV")
+
+
 RULES = [
+    ("QM-INV", rule_qm, 40),
     ("CONTROL", rule_controls, 0),
     ("REJECT-SOUND", rule_reject_sound, 30),
     ("TYPED", rule_typed, 2),
